@@ -10,6 +10,8 @@ package c14
 import (
 	"context"
 	"fmt"
+	"math"
+	"math/big"
 	"sort"
 	"strings"
 	"sync"
@@ -278,6 +280,26 @@ func (p *peerModel) total() int {
 	}
 	return s
 }
+
+// exactTotal is the peer's tag total as a number (the tag values are ints, their sum need
+// not be one); fits = the manager can report it in GetTagInfo().Value at all.
+func (p *peerModel) exactTotal() (sum *big.Int, fits bool) {
+	sum = new(big.Int)
+	for _, v := range p.static {
+		sum.Add(sum, big.NewInt(int64(v)))
+	}
+	for _, v := range p.decay {
+		sum.Add(sum, big.NewInt(int64(v)))
+	}
+	return sum, sum.IsInt64()
+}
+
+// wideGap: the difference of the two totals does not fit an int.
+func wideGap(a, b int) bool {
+	d := new(big.Int).Sub(big.NewInt(int64(a)), big.NewInt(int64(b)))
+	return d.CmpAbs(big.NewInt(math.MaxInt)) > 0
+}
+
 func (p *peerModel) anyNonZero() bool {
 	for _, v := range p.static {
 		if v != 0 {
@@ -309,6 +331,7 @@ type peerSnap struct {
 	protected bool
 	firstSeen time.Time
 	vlo, vhi  int // value during the trim (a range when a decay tick coincides with it)
+	unrep     bool // the sum of the peer's tag values does not fit an int: it has no reportable total, its rank is not judged
 }
 
 // ---------------------------------------------------------------------------
@@ -461,6 +484,9 @@ func (w *world) tagPeer(pi int, tag string, val int) {
 	if val < 0 {
 		w.labels["negative-tag"] = true
 	}
+	if isWide(val) {
+		w.labels["wide:TagPeer-value"] = true
+	}
 }
 
 func (w *world) untagPeer(pi int, tag string) {
@@ -476,6 +502,9 @@ func (w *world) upsertTag(pi int, tag string, name string, f func(int) int) {
 	w.cm.UpsertTag(p.id, tag, f)
 	p.touch(time.Now())
 	p.static[tag] = f(p.static[tag])
+	if isWide(p.static[tag]) {
+		w.labels["wide:UpsertTag-result"] = true
+	}
 }
 
 func (w *world) registerDecaying(name string, interval time.Duration, dk, bk int) {
@@ -618,6 +647,10 @@ func (w *world) snapshot() []peerSnap {
 		}
 		s.vlo = p.total()
 		s.vhi = s.vlo
+		if _, fits := p.exactTotal(); !fits {
+			s.unrep = true
+			w.labels["wide:peer-total-does-not-fit-int-at-trim(rank-not-judged)"] = true
+		}
 		out = append(out, s)
 	}
 	return out
@@ -795,11 +828,12 @@ func judgeBatch(cfg config, kind trimKind, now time.Time, snaps []peerSnap, batc
 		}
 	}
 	for _, p := range snaps {
-		if nclosed(p) == 0 || !stable {
+		if nclosed(p) == 0 || !stable || p.unrep {
 			continue
 		}
 		for _, q := range snaps {
-			if nclosed(q) == 0 && eligible(q) && q.vhi < p.vlo {
+			// plain numeric order of the totals, whatever their distance
+			if nclosed(q) == 0 && eligible(q) && !q.unrep && q.vhi < p.vlo {
 				return fmt.Sprintf("%v closed p%d (value %d) while the lower-valued eligible peer p%d (value %d) is kept", kind, p.idx, p.vlo, q.idx, q.vhi)
 			}
 		}
@@ -867,6 +901,28 @@ func (w *world) judge(kind trimKind, now time.Time, snaps []peerSnap, batch []cl
 	distinct := map[*fakeConn]bool{}
 	for _, ev := range batch {
 		distinct[ev.c] = true
+	}
+	// the wide-value class: eligible peers whose totals are further apart than MaxInt
+	if count > w.cfg.low {
+		hit := func(s peerSnap) bool {
+			for _, c := range s.conns {
+				if distinct[c] {
+					return true
+				}
+			}
+			return false
+		}
+		for _, p := range snaps {
+			for _, q := range snaps {
+				if p.unrep || q.unrep || p.protected || q.protected || !w.cfg.pastGrace(p.firstSeen, now) || !w.cfg.pastGrace(q.firstSeen, now) || !wideGap(p.vlo, q.vlo) {
+					continue
+				}
+				w.labels["wide:trim-above-low-with-eligible-totals-further-apart-than-maxint:"+name] = true
+				if hit(p) != hit(q) {
+					w.labels["wide:trim-closed-one-kept-other-of-peers-further-apart-than-maxint:"+name] = true
+				}
+			}
+		}
 	}
 	if len(distinct) < len(batch) {
 		w.labels["same-conn-closed-twice-in-one-trim:"+name] = true
